@@ -1,20 +1,21 @@
 #!/bin/bash
-# Applies every /verif/seeded/*/patch.diff to /repo in turn, runs all 18 quick checks (evidence into a scratch dir), reverts,
-# and writes /verif/seeded/MATRIX.md + matrix.json: which checks report which seeded change.
+# Applies every /verif/seeded/*/patch.diff to a scratch worktree of /repo HEAD in turn, runs all 18 quick checks against it
+# (evidence into a scratch dir), reverts, and writes /verif/seeded/MATRIX.md + matrix.json: which checks report which seeded change.
 set -u
 SCR=$(mktemp -d /tmp/seedmatrix.XXXX); cp /verif/known_findings.json "$SCR/"
-trap 'git -C /repo checkout -q -- . ; rm -rf "$SCR"' EXIT
+W=$(mktemp -d /tmp/seedmw.XXXX); rmdir "$W"; git -C /repo worktree add -q --detach "$W" HEAD || exit 9
+trap 'git -C /repo worktree remove --force "$W" >/dev/null 2>&1; rm -rf "$SCR"' EXIT
 OUT=/verif/seeded/matrix.json; echo "{" > "$OUT"; first=1
 for d in /verif/seeded/*/; do
   id=$(basename "$d"); [ -f "$d/patch.diff" ] || continue
-  git -C /repo apply "$d/patch.diff" || { echo "APPLY FAILED $id"; continue; }
+  git -C "$W" apply "$d/patch.diff" || { echo "APPLY FAILED $id"; continue; }
   hits=""
   for p in C01 C02 C03 C04 C05 C06 C07 C08 C09 C10 C11 C12 C13 C14 C15 C16 C17 C18; do
-    o=$(/verif/bin/cachelint -repo /repo -verif "$SCR" -prop $p 2>&1); rc=$?
+    o=$(/verif/bin/cachelint -repo "$W" -verif "$SCR" -prop $p 2>&1); rc=$?
     if [ $rc -eq 1 ]; then keys=$(echo "$o" | grep '^  violated' | sed 's/^  violated \([^ ]*\) .*/\1/' | sort -u | tr '\n' ',' | sed 's/,$//'); hits="$hits\"$p\":\"$keys\","; 
     elif [ $rc -ne 0 ]; then hits="$hits\"$p\":\"BROKEN(exit $rc)\","; fi
   done
-  git -C /repo checkout -q -- .
+  git -C "$W" checkout -q -- . ; git -C "$W" clean -fdq
   [ $first -eq 1 ] || echo "," >> "$OUT"; first=0
   echo " \"$id\": {${hits%,}}" >> "$OUT"
   echo "$id: ${hits%,}" | cut -c1-200
